@@ -298,22 +298,6 @@ theorem honest_served_is_leaders (B : HBlock) (cap : Nat) (sd : SlotData) (hg : 
 leader encoded (the decoder `env` is a parameter; `exEnv` below is a lawful instance). All theorems are
 for a fresh slot (`SlotData.new`), every well-formed block, every list of the leader's shreds. -/
 
-theorem not_enough_nil (B : HBlock) (hn : 0 < B.n) : ¬ Enough B [] := by
-  intro h
-  have := h 0 hn
-  have h0 : distinctShreds [] 0 = 0 := cnt_dnone 0
-  rw [h0] at this
-  exact absurd this (by decide)
-
-theorem empty_delivered_iff (B : HBlock) (ss : List Shred) (hss : ∀ s ∈ ss, B.Honest s) :
-    Empty B (delivered ss) ↔ ss = [] := by
-  constructor
-  · intro he
-    cases hnil : decide (ss = []) with
-    | true => exact of_decide_eq_true hnil
-    | false => exact absurd he (not_empty_delivered B ss hss (of_decide_eq_false hnil))
-  · intro h; subst h; exact empty_dnone B
-
 /-- **Exact run.** After any delivery `ss` of a correct leader's shreds (any order, duplicates, any
     subset, interleaved across slices) into a fresh slot, the slot's state is the canonical state of
     the *set* of delivered shreds (never flagged, no repair data), and the events sent to Votor are
